@@ -126,7 +126,7 @@ func ruleC17_3(c *Ctx) {
 						okSrc = false
 					}
 				case *ssa.Call:
-					if !matcher[calleeName(x)] {
+					if !matcher[calleeName(x)] && !badPatternOnly(x.Call.StaticCallee(), map[*ssa.Function]bool{}) {
 						okSrc = false
 					}
 					return true
@@ -1222,4 +1222,48 @@ func (c *Ctx) setUnderBracket(f *ssa.Function, ph *ssa.Phi) bool {
 		return false
 	}
 	return walk(ph)
+}
+
+// badPatternOnly: g is a module function with an error result whose every possibly non-nil error is the bad-pattern
+// sentinel or comes from a function of the same kind (a helper split off the matcher).
+func badPatternOnly(g *ssa.Function, visiting map[*ssa.Function]bool) bool {
+	if g == nil || g.Blocks == nil || g.Pkg == nil || !strings.HasPrefix(g.Pkg.Pkg.Path(), modPath) {
+		return false
+	}
+	if visiting[g] {
+		return true
+	}
+	visiting[g] = true
+	defer delete(visiting, g)
+	ei := errIndex(g)
+	if ei < 0 {
+		return false
+	}
+	for _, r := range returnsOf(g) {
+		ev := resolve(r.Results[ei], r)
+		if isNilConst(ev) {
+			continue
+		}
+		ok := true
+		derives(ev, func(v ssa.Value) bool {
+			switch x := v.(type) {
+			case *ssa.Global:
+				if x.Name() != "errBadPattern" {
+					ok = false
+				}
+			case *ssa.Call:
+				if !badPatternOnly(x.Call.StaticCallee(), visiting) {
+					ok = false
+				}
+				return true
+			case *ssa.MakeInterface:
+				ok = false
+			}
+			return false
+		}, false)
+		if !ok {
+			return false
+		}
+	}
+	return true
 }
